@@ -59,6 +59,15 @@ type specCase struct {
 	Eb    [][2]int64                `json:"eb"`
 	Nodes json.RawMessage           `json:"nodes"`
 	Prods map[string][][2][2]int64  `json:"prods"`
+	// prodx: inputs of either kind (held in an undirected or a directed container) with arc weights; per product
+	// the arcs a directed destination must hold and the edges an undirected destination must hold
+	AUnd   bool                     `json:"aund"`
+	BUnd   bool                     `json:"bund"`
+	Wa     [][3]int64               `json:"wa"`
+	Wb     [][3]int64               `json:"wb"`
+	Arcs   map[string][][2][2]int64 `json:"arcs"`
+	UEdges map[string][][2][2]int64 `json:"uedges"`
+	Alias  map[string]string        `json:"alias"`
 	// gen
 	Kind  string     `json:"kind"`
 	Fan   int        `json:"fan"`
@@ -627,6 +636,11 @@ func sortStrings(s []string) {
 func replay(in *core.Lines, args []string, seed int64, sum *core.Summary) error {
 	a := parseArgs(args)
 	maps := atoi(a["maps"], 3)
+	prodxAllMaps = a["all"] == "1"
+	prodxSeed = seed
+	if prodxSeed < 0 {
+		prodxSeed = -prodxSeed
+	}
 	for {
 		line, ok := in.Next()
 		if !ok {
@@ -647,6 +661,8 @@ func replay(in *core.Lines, args []string, seed int64, sum *core.Summary) error 
 			replayPart(&c, f, maps, seed, sum)
 		case "prod":
 			replayProd(&c, f, maps, seed, sum)
+		case "prodx":
+			replayProdX(&c, f, maps, seed, sum)
 		case "gen":
 			replayGen(&c, f, maps, seed, sum)
 		case "missing-clique":
